@@ -340,6 +340,27 @@ theorem roundNE_norm_zero_trunc {F p eb} (lay : Layout F p eb) (lg M cz c r : Na
   rw [e3] at h4
   omega
 
+/-- the literal's value `(M·c + r)/c · base^e` is at least `M·base^e` -/
+theorem roundNE_sticky_inf {f : Fmt} (hf : WF f) (base M c r : Nat) (e : Int) (hb : 0 < base) (hc : 0 < c)
+    (h : roundNE f (powFrac base e M).1 (powFrac base e M).2 = f.infBits) :
+    roundNE f (powFrac base e (M * c + r)).1 ((powFrac base e (M * c + r)).2 * c) = f.infBits := by
+  have hden : ∀ m, 0 < (powFrac base e m).2 := by
+    intro m; unfold powFrac; split
+    · exact Nat.one_pos
+    · exact Nat.pow_pos hb
+  have hle : (powFrac base e M).1 * ((powFrac base e (M * c + r)).2 * c) ≤
+      (powFrac base e (M * c + r)).1 * (powFrac base e M).2 := by
+    unfold powFrac; split
+    · simp only [Nat.one_mul, Nat.mul_one]
+      calc M * base ^ e.toNat * c = M * c * base ^ e.toNat := by ac_rfl
+        _ ≤ (M * c + r) * base ^ e.toNat := Nat.mul_le_mul_right _ (Nat.le_add_right _ _)
+    · simp only []
+      calc M * (base ^ (-e).toNat * c) = M * c * base ^ (-e).toNat := by ac_rfl
+        _ ≤ (M * c + r) * base ^ (-e).toNat := Nat.mul_le_mul_right _ (Nat.le_add_right _ _)
+  have h1 := roundNE_mono' hf (hden M) (Nat.mul_pos (hden (M * c + r)) hc) hle
+  have h2 := roundNE_le_infBits hf (powFrac base e (M * c + r)).1 (Nat.mul_pos (hden (M * c + r)) hc)
+  omega
+
 /-- **`binary` on a truncated mantissa**: a *valid* non-lossy answer is `roundNE x` for every
 `x = (M + r/c)·base^e`, `0 ≤ r < c` (the true value of the untruncated literal), provided the truncated digits
 are worth less than the bits shifted out (`clz(M) < shift`; always so when `M` holds `u64_step` digits) and,
@@ -347,7 +368,7 @@ without `many_digits`, nothing was truncated. -/
 theorem binary_truncated {F p eb} (lay : Layout F p eb) {base : Nat}
     (hb : base = 2 ∨ base = 4 ∨ base = 8 ∨ base = 16 ∨ base = 32) (n : Num)
     (hm : n.mantissa < 2 ^ 64) (he1 : -(2 ^ 27 : Int) ≤ n.exponent) (he2 : n.exponent ≤ (2 ^ 27 : Int))
-    (hmk : MarkerOk F base n) (c r : Nat) (hr : r < c) (hmany : n.manyDigits = false → r = 0)
+    (c r : Nat) (hr : r < c) (hmany : n.manyDigits = false → r = 0)
     (hM0 : n.mantissa ≠ 0)
     (hcs : clz64 n.mantissa < shiftOf p (calculatePower2 F base n.exponent (clz64 n.mantissa)))
     {fp : ExtendedFloat80} (h : binary F base n false = .ok fp) (hv : 0 ≤ fp.exp) :
@@ -359,7 +380,6 @@ theorem binary_truncated {F p eb} (lay : Layout F p eb) {base : Nat}
   rw [binary_eq, if_neg hM0] at h
   obtain ⟨hc, hm1, hm2, hshl⟩ := clz_norm hM0 hm
   have hpw := calculatePower2_eq lay hlg n.exponent he1 he2 (clz64 n.mantissa) (by omega)
-  unfold MarkerOk at hmk
   simp only [hshl] at h
   generalize hP : calculatePower2 F base n.exponent (clz64 n.mantissa) = power2 at *
   generalize hcz : clz64 n.mantissa = cz at *
@@ -370,6 +390,18 @@ theorem binary_truncated {F p eb} (lay : Layout F p eb) {base : Nat}
     rw [roundNE_norm_zero_trunc lay lg n.mantissa cz c r n.exponent hm2 hc hr power2 hpw hz, ext_zero lay]
   · rw [if_neg hz] at h
     have hp2 : -power2 + 1 ≤ 64 := by omega
+    by_cases hinf : power2 ≥ F.C.infinitePower
+    · rw [if_pos hinf] at h
+      injection h with h; subst h
+      rw [ext_infinite lay]
+      exact (roundNE_sticky_inf lay.wf (2 ^ lg) n.mantissa c r n.exponent (Nat.two_pow_pos _) (by omega)
+        (roundNE_norm_inf lay lg n.mantissa cz n.exponent hm1 hm2 hc power2 hpw hinf)).symm
+    rw [if_neg hinf] at h
+    have hmk : power2 + invalidFp < 0 := by
+      have h15 : 2 ^ eb ≤ 2 ^ 15 := Nat.pow_le_pow_right (by decide) lay.heb15
+      have : invalidFp = -32768 := rfl
+      rw [lay.infp] at hinf
+      omega
     rw [calculateShift_eq lay power2] at h
     obtain ⟨_, _, hs0, hs64, _⟩ := quot_bounds lay.hp (by have := lay.hp64; have := lay.heb; omega)
       hm1 hm2 power2 hp2
